@@ -232,6 +232,12 @@ def c05():
                       "CuckarooContext::verify == Ok  <=>  right count, strictly ascending, in range, and the edges form one simple cycle (bipartite, node equality), for EVERY assignment of endpoints",
                       "proof size %d, edge_bits 10, nonces full width, endpoints arbitrary (siphash_block replaced by an arbitrary function)" % n,
                       env={"VH_N": n}, tag="_n%d" % n, est=est, replay="model", mem_est_gb=14 if n > 2 else 5))
+    for var, what in [("cuckarood", "direction-alternating bipartite cycle (direction = low nonce bit, balanced)"), ("cuckaroom", "directed cycle in one node set"), ("cuckarooz", "undirected cycle in one node set (every touched node of degree two)")]:
+        for n, tiers, est in [(2, "qt", 300), (4, "t", 1800)]:
+            obs.append(ob("c05a::%s_verify_matches_definition" % var, tiers, 2 * n + 3,
+                          "%sContext::verify == Ok  <=>  right count, strictly ascending, in range, and the edges form one simple cycle by the variant's graph definition (%s), for EVERY assignment of endpoints" % (var.capitalize(), what),
+                          "proof size %d, edge_bits 10, nonces full width, endpoints arbitrary (siphash_block replaced by an arbitrary function)" % n,
+                          env={"VH_N": n}, tag="_n%d" % n, est=est, replay="model", mem_est_gb=14 if n > 2 else 5))
     obs.append(ob("c05::pow_variant_selection", "qt", 4, "create_pow_context picks cuckatoo unless a production chain asks for <= 29 edge bits, then the cuckaroo variant of header_version(height), none after HF4",
                   "every chain type, height < 2^32, every edge_bits byte", est=60, replay="model"))
     return {
